@@ -2,7 +2,10 @@
 
 package parquet
 
-import "bytes"
+import (
+	"bytes"
+	"io"
+)
 
 // C07.K4 on whole files: every value written to a column with a bloom filter is
 // found by the filter stored for its row group, whichever way the rows reached
@@ -92,4 +95,74 @@ func VerifH_C07_wholeFileBloomFilters() {
 		}
 	}
 	vCover("bloom")
+}
+
+// C07.K6: the same after a dictionary-encoded column has outgrown
+// DictionaryMaxBytes and fallen back to PLAIN in the middle of a row group: the
+// values written after the fallback are not in the dictionary, and must still
+// be found by the row group's filter.
+
+type verifRecP struct {
+	ID   int64  `parquet:"id"`
+	Name string `parquet:"name,dict"`
+}
+
+func VerifH_C07_bloomAfterDictionaryFallback() {
+	vUnwind(1 << 16)
+	vAbstractCRCFixedWidth() // page checksums are not the subject
+	rows := []verifRecP{{1, "aaaa"}, {2, "bbbb"}, {3, "ccc" + vString("name", 1)}, {4, "dddd"}}
+	opts := []WriterOption{BloomFilters(SplitBlockFilter(10, "name")), DictionaryMaxBytes(int64(vChoose("dictionaryMaxBytes", 4, 12)))}
+	if vChoose("smallPages", 0, 1) == 1 {
+		opts = append(opts, PageBufferSize(1))
+	}
+	buf := new(bytes.Buffer)
+	w := NewGenericWriter[verifRecP](buf, opts...)
+	for i := range rows {
+		if _, err := w.Write(rows[i : i+1]); err != nil {
+			vAssert(false, "rows are accepted")
+			return
+		}
+	}
+	if err := w.Close(); err != nil {
+		vAssert(false, "file closes")
+		return
+	}
+	data := buf.Bytes()
+	f, err := OpenFile(bytes.NewReader(data), int64(len(data)))
+	if err != nil {
+		vAssert(false, "written file opens")
+		return
+	}
+	got, err := verifReadNames(f, len(rows))
+	vAssert(err == nil && len(got) == len(rows), "rows read back")
+	for i := range rows {
+		if i < len(got) {
+			vAssert(got[i] == rows[i].Name, "values survive the dictionary fallback")
+		}
+	}
+	filter := f.RowGroups()[0].ColumnChunks()[1].BloomFilter()
+	if filter == nil {
+		vAssert(false, "configured bloom filter is written")
+		return
+	}
+	for _, r := range rows {
+		ok, err := filter.Check(ValueOf(r.Name))
+		vAssert(err == nil && ok, "a value written after the dictionary fallback is found by the bloom filter")
+	}
+	vCover("fallback bloom")
+}
+
+func verifReadNames(f *File, n int) ([]string, error) {
+	r := NewGenericReader[verifRecP](f)
+	defer r.Close()
+	out := make([]verifRecP, n+1)
+	k, err := r.Read(out)
+	if err != nil && err != io.EOF {
+		return nil, err
+	}
+	names := make([]string, k)
+	for i := range names {
+		names[i] = out[i].Name
+	}
+	return names, nil
 }
